@@ -106,8 +106,13 @@ class StringContainsToConcat:
 
     def global_mutations(self, node, input_):
         var = node[1]
-        k1 = f'{var}_prefix'
-        k2 = f'{var}_suffix'
+        if is_piped_symbol(var):
+            # keep the suffix inside of the quotes: |name_prefix|
+            k1 = f'|{get_piped_symbol(var)}_prefix|'
+            k2 = f'|{get_piped_symbol(var)}_suffix|'
+        else:
+            k1 = f'{var}_prefix'
+            k2 = f'{var}_suffix'
         if is_declared(k1) or is_declared(k2):
             return []
         vars = [
